@@ -15,7 +15,7 @@ HARNESSES = {
     'K-getrange': dict(path='mem::rolling_buffer::verif_kani::k_getrange', fn='k_getrange', bounded=True, bound='ring buffers of <= 4 bytes at every rotation, all RangeBounds kinds with symbolic bounds'),
     'K-p2i': dict(path='mem::queue::verif_kani::k_p2i', fn='k_p2i', bounded=True, bound='<= 4 record metas with symbolic strictly increasing positions, symbolic searched position'),
     'K-range': dict(path='mem::queue::verif_kani::k_range', fn='k_range', bounded=True, bound='2 records x 1-byte payloads at symbolic positions, symbolic Included/Excluded/Unbounded bounds'),
-    'K-mrs': dict(path='record::verif_kani::k_mrs', fn='k_mrs', bounded=True, bound='<= 3 payloads of <= 2 bytes each, symbolic first position'),
+    'K-mrs': dict(path='record::verif_kani::k_mrs', fn='k_mrs', bounded=True, bound='<= 2 payloads of <= 2 bytes each, symbolic first position'),
 }
 
 RSS_LIMIT_KB = 12 * 1024 * 1024
